@@ -69,11 +69,13 @@ JudgeRun(j, e, r, D) ==
                   => Report(j, "C02", r.entry, <<"tree differs from the denoted document", TreeDiff(r.tree.n, D.N)>>)
             /\ (r.res = "ok" /\ \E q \in 1..Len(r.ids) : r.ids[q][2] # IdExpected(D, r.ids[q][1]))
                   => Report(j, "C02", r.entry, <<"xml_id_node", {r.ids[q] : q \in {x \in 1..Len(r.ids) : r.ids[x][2] # IdExpected(D, r.ids[x][1])}}>>)
-            /\ (r.res = "ok" /\ HasSpans(r) /\ SpanSet(r.spans) # SpanSet(D.spans) /\ SpanSet(r.spans) # SpanSetAlt(D.spans))
-                  => Report(j, "C17", r.entry, <<"spans", SpanSet(r.spans) \ SpanSet(D.spans), "expected", SpanSet(D.spans) \ SpanSet(r.spans)>>)
+            \* (a text span runs to the end of the last part merged into the node: an empty CDATA section directly behind the
+            \* node's last character is such a part - SpanSetAlt; one in front of its first character created no node yet)
+            /\ (r.res = "ok" /\ HasSpans(r) /\ SpanSet(r.spans) # SpanSetAlt(D.spans))
+                  => Report(j, "C17", r.entry, <<"spans", SpanSet(r.spans) \ SpanSetAlt(D.spans), "expected", SpanSetAlt(D.spans) \ SpanSet(r.spans)>>)
             \* the spans are right, but the value the node holds is not what the slice decodes to (Denote computes every
             \* value from the pieces inside the item's span)
-            /\ (r.res = "ok" /\ HasSpans(r) /\ (SpanSet(r.spans) = SpanSet(D.spans) \/ SpanSet(r.spans) = SpanSetAlt(D.spans))
+            /\ (r.res = "ok" /\ HasSpans(r) /\ SpanSet(r.spans) = SpanSetAlt(D.spans)
                   /\ StructDefect(r.tree.n) = "none" /\ SpanValueBad(r, D) # {})
                   => Report(j, "C17", r.entry, <<"the value of the node is not what its span decodes to", SpanValueBad(r, D)>>)
          ELSE r.res = "ok" => Report(j, "C03", r.entry, <<"ill-formed text accepted", D.why, e.dmg>>)
